@@ -121,3 +121,41 @@ func StripRSANull(cert []byte) ([]byte, error) {
 	newTBS := DEREncode(0x30, tb)
 	return DEREncode(0x30, DERJoin(newTBS, parts[1].Full, parts[2].Full)), nil
 }
+
+// WithUniqueIDs re-encodes a certificate with issuerUniqueID [1] and/or subjectUniqueID [2] inserted between the
+// SubjectPublicKeyInfo and the extensions (legal X.509 v2/v3 members that crypto/x509's encoder never emits). The
+// signature is left untouched (parsers do not verify it).
+func WithUniqueIDs(cert []byte, issuer, subject bool) ([]byte, error) {
+	top, rest, err := DERParse(cert)
+	if err != nil || len(rest) != 0 {
+		return nil, errors.New("cert")
+	}
+	parts, err := DERChildren(top.Content)
+	if err != nil || len(parts) != 3 {
+		return nil, errors.New("cert parts")
+	}
+	tbs, err := DERChildren(parts[0].Content)
+	if err != nil {
+		return nil, err
+	}
+	idx := 5
+	if len(tbs) > 0 && tbs[0].Tag == 0xa0 {
+		idx = 6
+	}
+	if len(tbs) <= idx {
+		return nil, errors.New("tbs")
+	}
+	var tb []byte
+	for i, t := range tbs {
+		tb = append(tb, t.Full...)
+		if i == idx {
+			if issuer {
+				tb = append(tb, DEREncode(0x81, []byte{0x00, 0xde, 0xad, 0xbe, 0xef})...)
+			}
+			if subject {
+				tb = append(tb, DEREncode(0x82, []byte{0x00, 0x01, 0x02})...)
+			}
+		}
+	}
+	return DEREncode(0x30, DERJoin(DEREncode(0x30, tb), parts[1].Full, parts[2].Full)), nil
+}
